@@ -126,6 +126,8 @@ type Path struct {
 	nq       int
 	spec     int
 	mapFixed bool
+	absFP    bool      // float64 products/quotients of two symbolic operands are abstracted (see absMulDiv)
+	absApps  []*Term
 	noSimplify bool
 	noMerge  bool
 	where    func() string
